@@ -74,6 +74,19 @@ def near_presets(draw, names=None):
     return [b, t]
 
 
+@st.composite
+def tie_averse_schemes(draw):
+    """tying costs at least as much as an inversion: Condorcet-like cycles then form components that cannot be all
+    tied (the non-trivial case for the exact / partitioning algorithms)"""
+    v = st.sampled_from(DYADIC)
+    b1 = draw(st.sampled_from([0.25, 0.5, 1.0]))
+    t0 = draw(st.sampled_from([x for x in DYADIC if x >= b1]))
+    b2 = draw(v)
+    b3, b4 = sorted([draw(v), draw(v)])
+    t3 = draw(v)
+    return [[0.0, b1, b2, b3, b4, draw(v)], [t0, t0, 0.0, t3, t3, draw(v)]]
+
+
 def dyadic_schemes():
     """exactly representable penalties: every library comparison is decided on exact values"""
     return st.one_of(free_schemes(), free_schemes(), preset_multiples(), near_presets())
@@ -177,7 +190,7 @@ def perturb(draw, base, nmoves):
 
 
 SHAPES = ["complete", "incomplete", "sparse_block", "near_unanimous", "identical", "near_unanimous_incomplete",
-          "cyclic", "cyclic_incomplete"]
+          "cyclic", "cyclic_incomplete", "block_cyclic"]
 
 
 @st.composite
@@ -227,15 +240,38 @@ def datasets(draw, max_n=7, max_m=5, min_n=1, shapes=None, kinds=None, allow_emp
                 r = [[e for e in b if e not in gone] for b in r]
                 r = [b for b in r if b]
             rankings.append(r)
+    elif shape == "block_cyclic":
+        # 2-3 blocks in a common order; inside a block every ranking uses a rotation (cycle); a ranking may skip whole
+        # blocks: several components, some of them hard, and rankings that miss a whole component
+        nb = draw(st.integers(1, min(3, n)))
+        cuts = sorted(draw(st.lists(st.integers(1, max(1, n - 1)), min_size=nb - 1, max_size=nb - 1)))
+        blocks, prev = [], 0
+        for c in cuts + [n]:
+            if c > prev:
+                blocks.append(names[prev:c])
+                prev = c
+        m = max(m, 3)
+        step = draw(st.sampled_from([1, 1, 2]))
+        for k in range(m):
+            r = []
+            for blk in blocks:
+                if draw(st.integers(0, 3)) == 0:
+                    continue
+                sh = (k * step) % len(blk)
+                rot = blk[sh:] + blk[:sh]
+                part = draw(perturb([[e] for e in rot], draw(st.sampled_from([0, 0, 1]))))
+                r.extend(part)
+            rankings.append(r)
     elif shape in ("cyclic", "cyclic_incomplete"):
         # rotations of a base order: Condorcet-like cycles, i.e. large strongly connected components
         base = list(draw(st.permutations(names)))
-        m = max(m, 2)
+        m = max(m, 3)
+        step = draw(st.sampled_from([1, 1, 2]))
         for k in range(m):
-            sh = draw(st.integers(0, max(0, n - 1)))
+            sh = (k * step) % n
             rot = base[sh:] + base[:sh]
             r = [[e] for e in rot]
-            r = draw(perturb(r, draw(st.integers(0, 2))))
+            r = draw(perturb(r, draw(st.sampled_from([0, 0, 1, 2]))))
             if shape.endswith("incomplete"):
                 drop = draw(st.lists(st.integers(0, 3), min_size=n, max_size=n))
                 gone = {e for e, q in zip(names, drop) if q == 0}
